@@ -68,6 +68,10 @@ type Prop[C any] struct {
 	Key func(c C) []byte
 	// TerminationIsProperty makes a watchdog timeout a violation instead of inconclusive.
 	TerminationIsProperty bool
+	// Risky marks cases that may kill the process instead of failing (e.g. a stack overflow
+	// is fatal in Go): such a case is saved and announced before it runs, so that the driver can
+	// name it if the process dies.
+	Risky func(c C) bool
 }
 
 type environ struct {
@@ -222,6 +226,13 @@ func (r *runner[C]) evalNamed(c C, distinctFailFiles bool, name string) error {
 	r.inflight = &c
 	r.inflightT = time.Now()
 	r.mu.Unlock()
+	if r.p.Risky != nil && r.p.Risky(c) {
+		path := filepath.Join(r.env.replays, fmt.Sprintf("%s-inflight-s%d.json", r.p.ID, r.env.shard))
+		js, _ := json.MarshalIndent(c, "", " ")
+		os.MkdirAll(r.env.replays, 0o755)
+		os.WriteFile(path, js, 0o644)
+		fmt.Printf("VERIF-INFLIGHT property=%s stage=%s replay=%s\n", r.p.ID, r.stage, path)
+	}
 	var o Obs
 	err := r.safeCheck(c, &o)
 	r.mu.Lock()
